@@ -503,11 +503,12 @@ def compare_corpus(rep, info, opnames, classify=None, nontrivial=None, oracle=No
                 mism_model.append((op, impl, model, spec))
             if f[2] in corr_only:
                 pass
+            elif spec is not None:
+                if impl != spec:
+                    mism_spec.append((op, impl, model, spec))
             elif oracle is not None:
                 if not oracle(f, impl):
                     mism_spec.append((op, impl, model, spec))
-            elif spec is not None and impl != spec:
-                mism_spec.append((op, impl, model, spec))
     rep.cov["evaluations"] += n
     rep.cov["distinct_nontrivial"] += len(distinct)
     rep.cov["disagreements_checked"] += n
